@@ -1,4 +1,129 @@
-From Coq Require Import ZArith List.
+(* C18 -- Logging never fails the caller, stays bounded, and its files read back.
+   Property theorems only; proofs live in lib/LogBufProofs.v; the model lib/LogBuf.v interprets the constants and
+   shape facts translated from logging/{log,levels,incident,flogfile,publish}.py into gen/LogBufGen.v. *)
+From Coq Require Import ZArith List Bool Sorting.Sorted.
+Import ListNotations.
 Require Import Verif.lib.PyLite Verif.gen.LogBufGen Verif.lib.LogBuf Verif.lib.LogBufProofs.
-Theorem C18_stub : True. Proof. exact stub. Qed.
-Print Assumptions C18_stub.
+Local Open Scope Z_scope.
+
+(* "Emitting a log event never raises ..." : every msg() call -- also one whose _msg raises (uncomparable level,
+   unhashable facility, failing str(), negative size limit, failing incident reporter) -- returns a number *)
+Theorem C18_msg_total : forall c s o, is_call o = true -> exists n, snd (step c s o) = Some n.
+Proof. exact msg_total. Qed.
+Print Assumptions C18_msg_total.
+
+(* "... and returns strictly increasing event numbers, whatever objects are passed": over any history the numbers
+   handed out by the logger are exactly seq+1, seq+2, ... *)
+Theorem C18_numbers_exact : forall c ops s, autos ops (snd (run c s ops)) = zrange (s_seq s + 1) (count_auto ops).
+Proof. exact autos_exact. Qed.
+Print Assumptions C18_numbers_exact.
+
+Theorem C18_numbers_strictly_increase : forall c ops s,
+  StronglySorted Z.lt (autos ops (snd (run c s ops))) /\ Forall (fun n => s_seq s < n) (autos ops (snd (run c s ops))).
+Proof. exact numbers_strictly_increase. Qed.
+Print Assumptions C18_numbers_strictly_increase.
+
+(* "memory stays bounded (each facility/level history holds at most its configured number of events ...":
+   (1) right after an event on (facility, level) that buffer holds at most its limit, namely the most recent events,
+       and no other buffer changed;
+   (2) over ANY history (limits may be changed at any time) no buffer ever exceeds the largest configured limit.
+   Full statement "length <= current limit at all times" is NOT what the code does: set_buffer_size only records the
+   new limit (translated fact set_buffer_size_trims = false, Example ex_bounded), the buffer shrinks at its next event. *)
+Theorem C18_buffer_within_limit_after_event : forall c sz b i e,
+  0 <= limit_of sz (e_fac e) (e_lvl e) ->
+  let q := buf_get (x_bufs (add_event c sz b i e)) (e_fac e) (e_lvl e) in
+  Z.of_nat (List.length q) <= limit_of sz (e_fac e) (e_lvl e) /\
+  (exists k, q = skipn k (buf_get b (e_fac e) (e_lvl e) ++ [e])) /\
+  (forall f l, (f, l) <> (e_fac e, e_lvl e) -> buf_get (x_bufs (add_event c sz b i e)) f l = buf_get b f l).
+Proof. exact after_event_within_limit. Qed.
+Print Assumptions C18_buffer_within_limit_after_event.
+
+Theorem C18_buffers_bounded : forall M c ops,
+  DEFAULT_SIZELIMIT <= M -> Forall (op_limit_le M) ops ->
+  forall f l, Z.of_nat (List.length (buf_get (s_bufs (fst (run c init ops))) f l)) <= M.
+Proof. intros M c ops H1 H2. exact (buffers_bounded_from_init M c ops H1 H2). Qed.
+Print Assumptions C18_buffers_bounded.
+
+(* "... each remote subscriber at most its queue limit with a bounded number in flight) and subscribers see an
+   order-preserving subsequence": for every schedule of sends / queue turns / acknowledgements / failures *)
+Theorem C18_subscriber_bounded : forall ops,
+  let s := sub_run MAX_QUEUE_SIZE MAX_IN_FLIGHT ops in
+  Z.of_nat (List.length (q_queue s)) <= MAX_QUEUE_SIZE /\ 0 <= q_inflight s <= MAX_IN_FLIGHT /\
+  subseq (q_delivered s) (q_emitted s) /\ subseq (q_delivered s ++ q_queue s) (q_emitted s).
+Proof. intros ops. apply subscriber_bounded; unfold MAX_QUEUE_SIZE, MAX_IN_FLIGHT; discriminate. Qed.
+Print Assumptions C18_subscriber_bounded.
+
+(* the same for any limits (the correspondence also runs Subscription subclasses with small limits) *)
+Theorem C18_subscriber_bounded_any_limits : forall maxq maxfl ops, 0 <= maxq -> 0 <= maxfl ->
+  let s := sub_run maxq maxfl ops in
+  Z.of_nat (List.length (q_queue s)) <= maxq /\ 0 <= q_inflight s <= maxfl /\
+  subseq (q_delivered s) (q_emitted s) /\ subseq (q_delivered s ++ q_queue s) (q_emitted s).
+Proof. exact subscriber_bounded. Qed.
+Print Assumptions C18_subscriber_bounded_any_limits.
+
+(* "an incident file contains its triggering event and everything that was buffered, and one unrepresentable event
+   never prevents other events or later incidents from being recorded": whenever an event of incident level is added
+   while no recording is in progress -- WHATEVER the buffers hold (e_ok arbitrary: non-text keys, cycles, huge
+   integers, deep nesting ...) and whatever happened before -- add_event does not raise and
+     NonTrailing: the published file is  trigger :: buffered events sorted by number,
+     Trailing:    a timed reporter holds exactly those lines (published by C18_incident_trailing below).
+   FULL STRENGTH; rests on the translated fact serialize_total = true (three-stage fallback in flogfile). *)
+Theorem C18_one_bad_event_harmless : forall c sz b i e,
+  c_qual c = true -> incident_level <= e_lvl e -> i_rep i = None -> i_zombie i = false ->
+  0 <= limit_of sz (e_fac e) (e_lvl e) ->
+  let a := add_event c sz b i e in
+  x_raised a = false /\
+  (c_trailing c = false ->
+     i_files (x_inc a) = i_files i ++ [e :: sort_by_num (all_buffered (x_bufs a))] /\
+     i_recorded (x_inc a) = i_recorded i + 1 /\ i_junk (x_inc a) = i_junk i /\ i_rep (x_inc a) = None) /\
+  (c_trailing c = true ->
+     i_rep (x_inc a) = Some (mkRep e (sort_by_num (all_buffered (x_bufs a))) TRAILING_EVENT_LIMIT true) /\
+     i_junk (x_inc a) = i_junk i).
+Proof. exact incident_recorded. Qed.
+Print Assumptions C18_one_bad_event_harmless.
+
+(* the file's lines are a permutation of what was buffered, in event-number order; the trigger is among them *)
+Theorem C18_incident_complete : forall l,
+  (forall x, In x (sort_by_num l) <-> In x l) /\ StronglySorted num_le (sort_by_num l).
+Proof. intros l. split; [intros x; apply sort_in | apply sort_sorted]. Qed.
+Print Assumptions C18_incident_complete.
+
+Theorem C18_trigger_is_buffered : forall c sz b i e,
+  1 <= limit_of sz (e_fac e) (e_lvl e) -> In e (buf_get (x_bufs (add_event c sz b i e)) (e_fac e) (e_lvl e)).
+Proof. exact trigger_buffered. Qed.
+Print Assumptions C18_trigger_is_buffered.
+
+(* trailing events: up to TRAILING_EVENT_LIMIT later events are appended in order (each one that can be encoded: all of
+   them on this tree), then the timer publishes  trigger :: buffered ++ trailing *)
+Theorem C18_incident_trailing : forall evs i r,
+  i_rep i = Some r -> Z.of_nat (List.length evs) <= r_remaining r ->
+  fold_left trailing_event evs i =
+    mkInc (Some (mkRep (r_trigger r) (r_lines r ++ filter enc evs) (r_remaining r - Z.of_nat (List.length evs)) (r_timer r)))
+          (i_zombie i) (i_declared i) (i_recorded i) (i_files i) (i_junk i).
+Proof. exact trailing_fold. Qed.
+Print Assumptions C18_incident_trailing.
+
+Theorem C18_incident_timer_publishes : forall c s r,
+  i_rep (s_inc s) = Some r -> r_timer r = true ->
+  i_files (s_inc (fst (step c s Timer))) = i_files (s_inc s) ++ [r_trigger r :: r_lines r] /\
+  i_recorded (s_inc (fst (step c s Timer))) = i_recorded (s_inc s) + 1 /\ i_rep (s_inc (fst (step c s Timer))) = None.
+Proof. exact timer_publishes. Qed.
+Print Assumptions C18_incident_timer_publishes.
+
+(* over ANY history no incident is ever abandoned (.flog / .flog.bz2.tmp left behind) *)
+Theorem C18_nothing_abandoned : forall c ops, i_junk (s_inc (fst (run c init ops))) = 0.
+Proof. intros c ops. rewrite nothing_abandoned. reflexivity. Qed.
+Print Assumptions C18_nothing_abandoned.
+
+(* independent of the form of serialize_to_json_utf8: valid for every history whose buffered events can be encoded *)
+Theorem C18_incident_recorded_when_encodable : forall c sz b i e,
+  c_qual c = true -> incident_level <= e_lvl e -> i_rep i = None -> i_zombie i = false ->
+  0 <= limit_of sz (e_fac e) (e_lvl e) ->
+  let a := add_event c sz b i e in
+  enc e = true -> forallb enc (all_buffered (x_bufs a)) = true ->
+  x_raised a = false /\
+  (c_trailing c = false -> i_files (x_inc a) = i_files i ++ [e :: sort_by_num (all_buffered (x_bufs a))]) /\
+  (c_trailing c = true ->
+     i_rep (x_inc a) = Some (mkRep e (sort_by_num (all_buffered (x_bufs a))) TRAILING_EVENT_LIMIT true)).
+Proof. exact incident_recorded_guarded. Qed.
+Print Assumptions C18_incident_recorded_when_encodable.
